@@ -242,15 +242,26 @@ def small_grid(Ts, Tref, rng):
 
 
 def run_K(R, N, spacing, shape, pl, tier, only=None):
-    Ts, Cps, c = table(N, spacing, shape)
+    Ts, Cps0, c0 = table(N, spacing, shape)
     Tref = tref_for(Ts, pl)
     if Tref is None:
         return
-    for rname, rng in ranges_for(Ts, Tref):
+    # 'sibling': a second table on the SAME temperatures with other values,
+    # evaluated in the same process right after the first - anything
+    # remembered per (T_ref, T) instead of per correlation shows up here
+    variants = [('base', Cps0, c0),
+                ('sibling', [1.5 * v + 0.25 for v in Cps0],
+                 None if c0 is None else [1.5 * c0[0] + 0.25] + [1.5 * x for x in c0[1:]])]
+    for variant, Cps, c in variants:
+      for rname, rng in ranges_for(Ts, Tref):
         for (H, S) in HS[tier]:
+            if variant == 'sibling' and (H, S) != HS[tier][1]:
+                continue
             desc = dict(N=N, spacing=spacing, shape=shape, placement=pl,
-                        range=rname, H=H, S=S)
-            if only is not None and only != desc:
+                        range=rname, H=H, S=S, variant=variant)
+            if only is not None and only != desc and not (
+                    only.get('variant') == 'sibling' and variant == 'base' and
+                    rname == only['range'] and (H, S) == HS[tier][1]):
                 continue
             nontrivial = (N < 4 or pl in ('below', 'first', 'last', 'above')
                           or rname == 'wide')
